@@ -122,7 +122,8 @@ def execute(case):
         # all bounds are relative: the operands may have any norm (an absolute truncation threshold shows only for small norms)
         ck.label("scaled:1e%d" % case["scale_exp"])
         c1[case["seed"] % d] = c1[case["seed"] % d] * (10.0 ** case["scale_exp"])
-        c2[(case["seed"] // 3) % d] = c2[(case["seed"] // 3) % d] * (10.0 ** case["scale_exp"])
+        if abs(case["scale_exp"]) <= 20:       # (beyond that the product of two scaled operands is not representable: one operand only, as in C11)
+            c2[(case["seed"] // 3) % d] = c2[(case["seed"] // 3) % d] * (10.0 ** case["scale_exp"])
     A, x = T.TT(core.clone_cores(c1)), T.TT(core.clone_cores(c2))
     ck.label("dt:" + dt, "spectrum:" + case["spectrum"])
     init = None
